@@ -362,6 +362,10 @@ func (c *Ctx) RuleNoPanicSites(fns map[*ssa.Function]bool, exceptions map[string
 						c.add("discharged", "C18.T1", fn, x.Pos(), "listed exception: "+why)
 						continue
 					}
+					if why, ok := exceptions["json-object-key:"+types.TypeString(x.AssertedType, nil)]; ok && isJSONObjectKey(fn, x) {
+						c.add("discharged", "C18.T1", fn, x.Pos(), "listed exception: "+why)
+						continue
+					}
 					c.add("violated", "C18.T1", fn, x.Pos(), "type assertion without comma-ok ("+key+")")
 				case *ssa.BinOp:
 					if x.Op == token.QUO || x.Op == token.REM {
@@ -904,4 +908,37 @@ func (c *Ctx) RuleSentinelOnlyInGuards(sentinel *ssa.Global, fns []*ssa.Function
 	if n == 0 {
 		c.add("violated", "C18.L", nil, token.NoPos, sentinel.Pkg.Pkg.Name()+"."+sentinel.Name()+" is never produced: over-long input is not rejected with the package's input-too-long error")
 	}
+}
+
+// isJSONObjectKey: the asserted value is result #0 of a decoder Token() call in a function that also asks the
+// decoder More() (i.e. the token read at a member boundary of an object).
+func isJSONObjectKey(fn *ssa.Function, ta *ssa.TypeAssert) bool {
+	ex, ok := ta.X.(*ssa.Extract)
+	if !ok || ex.Index != 0 {
+		return false
+	}
+	call, ok := ex.Tuple.(*ssa.Call)
+	if !ok {
+		return false
+	}
+	isTok := call.Call.IsInvoke() && call.Call.Method.Name() == "Token"
+	if f := call.Call.StaticCallee(); f != nil && f.String() == "(*encoding/json.Decoder).Token" {
+		isTok = true
+	}
+	if !isTok {
+		return false
+	}
+	for _, b := range fn.Blocks {
+		for _, in := range b.Instrs {
+			if c2, ok := in.(*ssa.Call); ok {
+				if c2.Call.IsInvoke() && c2.Call.Method.Name() == "More" {
+					return true
+				}
+				if f := c2.Call.StaticCallee(); f != nil && f.String() == "(*encoding/json.Decoder).More" {
+					return true
+				}
+			}
+		}
+	}
+	return false
 }
